@@ -89,7 +89,8 @@ fn period_text(p: &(u64, String)) -> String {
 }
 
 fn period() -> impl Strategy<Value = (u64, String)> {
-	(1u64..400, proptest::sample::select(vec!["s", "m", "h", "d", "w"])).prop_map(|(n, u)| (n, u.to_string()))
+	// zero is a value like any other ("0s" at a specific level overrides a non-zero general one)
+	(prop_oneof![1 => Just(0u64), 7 => 1u64..400], proptest::sample::select(vec!["s", "m", "h", "d", "w"])).prop_map(|(n, u)| (n, u.to_string()))
 }
 
 fn levels() -> impl Strategy<Value = Levels> {
